@@ -348,6 +348,8 @@ var hostileSnippets = []string{
 	`{"$dynamicRef":"#nope"}`, `{"$anchor":"a","$dynamicAnchor":"a"}`, `{"pattern":"("}`, `{"patternProperties":{"(":true}}`, `{"multipleOf":0}`,
 	`{"multipleOf":-1}`, `{"default":{"a":`, `null`, `[]`, `7`, `"str"`, `{"$schema":7}`, `{"$vocabulary":{"a":true}}`, `{"allOf":[null]}`, `{"not":null}`,
 	`{"properties":{"a":null}}`, `{"items":[null]}`, `{"type":"object","type":"string"}`, `{"\u0000":1}`, `{"minContains":1.5}`, `{"maxItems":"3"}`,
+	`{"uniqueItems":true}`, `{"items":{"uniqueItems":true}}`, `{"const":[[1,2],[1,2]]}`, `{"enum":[[1],[1,2],{"a":[1]},null]}`, `{"const":{"a":[1,2]}}`,
+	`{"additionalProperties":{"uniqueItems":true},"uniqueItems":true}`, `{"contains":{"const":[1,2]},"uniqueItems":true}`,
 	`{"if":false,"then":false}`, `{"unevaluatedItems":false,"prefixItems":[],"contains":{}}`, `{"$defs":{"a":{"$ref":"#/$defs/a"}},"$ref":"#/$defs/a"}`,
 }
 
@@ -359,9 +361,16 @@ func genC10(t *rapid.T) *c10Case {
 		k := 1 + n(3, "ninst")
 		for i := 0; i < k; i++ {
 			var v *jv.V
-			if doc != nil && n(2, "directed") == 0 {
+			switch {
+			case doc != nil && n(2, "directed") == 0:
 				v = sgen.Satisfy(t, doc, doc, 2)
-			} else {
+			case n(4, "dupes") == 0:
+				// arrays with planted equal-but-not-identical duplicates, possibly nested in an object
+				v = genUniqueArray(t, instOpts)
+				if n(3, "wrapdupes") == 0 {
+					v = jv.ObjV(jv.Member{K: "a", V: v})
+				}
+			default:
 				v = jv.Gen(instOpts).Draw(t, "inst")
 			}
 			l := &repr.Logger{In: repr.RapidChooser{T: t}}
@@ -370,7 +379,43 @@ func genC10(t *rapid.T) *c10Case {
 			c.Choices = append(c.Choices, l.Log)
 		}
 	}
-	switch n(10, "target") {
+	switch n(11, "target") {
+	case 10:
+		// equality-centric: uniqueItems / const / enum meeting containers in every representation
+		// (arrays of arrays, equal-but-not-identical duplicates), since those keywords walk the
+		// instance with reflection on both operands
+		c.Target = "unmarshal"
+		arr := genUniqueArray(t, jv.Opts{MaxDepth: 2, MaxLen: 3})
+		if len(arr.A) > 0 && n(2, "nested") == 0 {
+			// duplicate a container element so that two equal containers meet
+			var conts []*jv.V
+			for _, e := range arr.A {
+				if e.K == jv.Arr || e.K == jv.Obj {
+					conts = append(conts, e)
+				}
+			}
+			if len(conts) > 0 {
+				arr.A = append(arr.A, jv.EquivalentCopy(t, conts[n(len(conts), "dupcont")]))
+			} else {
+				arr.A = append(arr.A, jv.ArrV(jv.NumV("1"), jv.NumV("2")), jv.ArrV(jv.NumV("1"), jv.NumV("2.0")))
+			}
+		}
+		switch n(4, "eqschema") {
+		case 0:
+			c.Bytes = `{"uniqueItems":true}`
+		case 1:
+			c.Bytes = `{"const":` + jv.EquivalentCopy(t, arr).JSON() + `}`
+		case 2:
+			c.Bytes = `{"enum":[1,` + jv.EquivalentCopy(t, arr).JSON() + `,"x"]}`
+		default:
+			c.Bytes = `{"items":{"uniqueItems":true},"uniqueItems":true,"contains":{"const":[1,2]}}`
+		}
+		for i := 0; i < 4; i++ {
+			l := &repr.Logger{In: repr.RapidChooser{T: t}}
+			(&repr.Builder{C: l}).Build(arr)
+			c.Instances = append(c.Instances, arr)
+			c.Choices = append(c.Choices, l.Log)
+		}
 	case 0, 1, 2:
 		c.Target = "unmarshal"
 		c.Defaults = n(3, "vd") == 0
@@ -460,7 +505,7 @@ func genC10(t *rapid.T) *c10Case {
 func TestC10(t *testing.T) {
 	rec := ev.For("C10")
 	defer finish(rec)
-	rec.Describe("case = one of four targets. unmarshal: a grammar-generated schema document of either draft with 0-3 type confusions (value replaced by null / arbitrary JSON / wrapped in array or object, key renamed to $ref/$id/items/...), truncation, a 3000-deep nesting or one of ~45 hostile snippets; then Resolve (optionally ValidateDefaults), then Validate and ApplyDefaults on 1-3 instances of any shape in any Go representation. graph: a Schema graph from the reflection-driven generator in wild mode (shared and cyclic subschema pointers, nil children in slices/maps, malformed URIs/regexps/anchors, conflicting fields, bad default bytes), BaseURI empty/absolute/with fragment/garbage/relative/urn, Loader nil/erroring/returning a wrong document/returning the root itself. for: ForType on arbitrary types incl. recursive and mutually recursive pool types and unsupported kinds at any depth, both IgnoreInvalidTypes settings. universe: a C03 universe with loaders that fail every other call, serve rotated documents, return the root, or are nil; odd BaseURIs; fault sets. Oracle: the call returns (recover + 20s deadline); every case is journalled before it runs so a fatal error leaves a replay. Non-trivial: the input got past the first validation layer (Unmarshal succeeded / Resolve succeeded / ForType reached a struct). Distinct = distinct case.",
+	rec.Describe("case = one of four targets. unmarshal: a grammar-generated schema document of either draft with 0-3 type confusions (value replaced by null / arbitrary JSON / wrapped in array or object, key renamed to $ref/$id/items/...), truncation, a 3000-deep nesting or one of ~50 hostile snippets (malformed keyword values, dangling references, equality-centric schemas); then Resolve (optionally ValidateDefaults), then Validate and ApplyDefaults on 1-3 instances of any shape in any Go representation. graph: a Schema graph from the reflection-driven generator in wild mode (shared and cyclic subschema pointers, nil children in slices/maps, malformed URIs/regexps/anchors, conflicting fields, bad default bytes), BaseURI empty/absolute/with fragment/garbage/relative/urn, Loader nil/erroring/returning a wrong document/returning the root itself. for: ForType on arbitrary types incl. recursive and mutually recursive pool types and unsupported kinds at any depth, both IgnoreInvalidTypes settings. universe: a C03 universe with loaders that fail every other call, serve rotated documents, return the root, or are nil; odd BaseURIs; fault sets. Oracle: the call returns (recover + 20s deadline); every case is journalled before it runs so a fatal error leaves a replay. Non-trivial: the input got past the first validation layer (Unmarshal succeeded / Resolve succeeded / ForType reached a struct). Distinct = distinct case.",
 		"out of domain and never generated: loaders returning (nil, nil), infinite universes, nil *Schema receivers, non-pointer arguments to ApplyDefaults, non-JSON-shaped instances, and Validate on graphs with an in-place reference cycle (the property's proviso; detected through the verif hook, without hooks Validate runs only on reference-free graphs)")
 	rapid.Check(t, propC10(rec))
 }
